@@ -171,10 +171,14 @@ func c02API(r *ev.Run, shardI, shardN int) scopeReport {
 			c02Window(r, &rep, c.deepest, c.req, 2, off, children, shardI, shardN)
 		}
 	}
-	if thorough {
-		// 3x3 window on the deepest id only (511 hot sets x ~3.6e6 segment pairs would be
-		// too many: restrict to placements straddling the root centre and the extent corner)
-		for _, off := range [][2]int64{{7, 7}, {6, 7}, {0, 0}, {13, 13}} {
+	{
+		// 3x3 window on the deepest id only: a window that contains a whole 2x2 quadtree cell plus
+		// pixels outside it (one endpoint inside a cell, the other outside) and one straddling the root centre
+		offs3 := [][2]int64{{6, 6}, {7, 7}}
+		if thorough {
+			offs3 = append(offs3, [2]int64{6, 7}, [2]int64{0, 0}, [2]int64{13, 13}, [2]int64{5, 8})
+		}
+		for _, off := range offs3 {
 			if r.Expired() {
 				rep.Exhaustive = false
 				break
@@ -182,7 +186,7 @@ func c02API(r *ev.Run, shardI, shardN int) scopeReport {
 			c02Window(r, &rep, 0, 0, 3, off, []int{0}, shardI, shardN)
 		}
 	}
-	rep.Bound = "2x2 pixel window, quarter-pixel lattice, every non-empty hot set x every ordered pair of lattice points in hot pixels; index depth 4..6 (thorough 7), requested id = deepest, deepest-1, deepest-2 with several child realisations; 5 placements incl. root centre and extent corners; thorough adds the 3x3 window at 4 placements"
+	rep.Bound = "2x2 pixel window, quarter-pixel lattice, every non-empty hot set x every ordered pair of lattice points in hot pixels; index depth 4..6 (thorough 7), requested id = deepest, deepest-1, deepest-2 with several child realisations; 5 placements incl. root centre and extent corners; plus the 3x3 window on the deepest id at 2 (thorough 6) placements"
 	rep.Inputs = rep.Calls
 	rep.States++ // compensated by the parent's shared-root correction
 	rep.WallS = time.Since(t0).Seconds()
